@@ -333,7 +333,11 @@ static void wf_plan(Rng &rng, Plan &p, const std::string &prop) {
     auto c0 = choose_cuts(rng, cp.stream[0], m0, s0, MEANS[rng.below(8)]);
     auto c1 = choose_cuts(rng, cp.stream[1], m1, s1, MEANS[rng.below(8)]);
     static const int BIAS[] = {20, 50, 80, 100};
-    interleave_ops(rng, cp, 0, c0, c1, BIAS[rng.below(4)], true, false, p.ops);
+    // C06: a server may answer as soon as it has the request head (a refusal while the body is still being sent): in a quarter
+    // of the plans a response may be offered once the head of its request has been, the rest of the body following later
+    bool early = prop == "C06" && rng.chance(1, 4);
+    if (early) p.cfg.set("c06_early_responses", 1);
+    interleave_ops(rng, cp, 0, c0, c1, BIAS[rng.below(4)], true, early, p.ops);
 }
 
 static const TxRec *tx_of_exchange(const RunResult &r, size_t conn, size_t i) {
@@ -855,9 +859,9 @@ static void c14_build(Rng &rng, Bytes &content_type, Bytes &body, std::vector<Pa
     static const char *NEAR[] = {"\r", "\n", "\r\n", "--", "\r\n--", "\r\n-", "-", "\r\r\n", "\n\r", "\r\n\r\n"};
     for (int i = 0; i < n; i++) {
         PartSpec ps;
-        ps.name = "f" + strfmt("%d", i); if (rng.chance(1, 4)) ps.name += "\"q\\x"; if (rng.chance(1, 6)) ps.name += " sp;=";
+        ps.name = "f" + strfmt("%d", i); if (rng.chance(1, 4)) ps.name += "\"q\\x"; if (rng.chance(1, 6)) ps.name += " sp;="; if (rng.chance(1, 8)) ps.name += rng.coin() ? "\\" : "dir\\\\";
         ps.is_file = rng.chance(1, 3);
-        if (ps.is_file) { ps.filename = "file" + strfmt("%d", i) + ".bin"; if (rng.chance(1, 4)) ps.filename += "\\\""; if (rng.chance(1, 3)) ps.ctype = rng.coin() ? "application/octet-stream" : "text/plain"; }
+        if (ps.is_file) { ps.filename = "file" + strfmt("%d", i) + ".bin"; if (rng.chance(1, 4)) ps.filename += "\\\""; if (rng.chance(1, 8)) ps.filename = "C:\\tmp\\" + (rng.coin() ? std::string() : ps.filename + "\\"); if (rng.chance(1, 3)) ps.ctype = rng.coin() ? "application/octet-stream" : "text/plain"; }
         int pieces = (int) rng.range(0, 5);
         for (int k = 0; k < pieces; k++) {
             switch (rng.below(6)) {
@@ -1124,7 +1128,7 @@ static void c08_streams(const std::string &pat, size_t k, Bytes &rq, Bytes &rs) 
 // Generated pumps: a unit string repeated k times at an insertion site of an otherwise ordinary exchange. The fixed dictionary
 // above names the constructs the statement lists; this family covers "repeating any construct" by enumeration of (site x unit).
 static const char *C08_UNITS[] = {"a", " ", "\t", ",", ";", "=", "&", "%", "%2", "%u", "%u00", "%41", "+", "/", "/.", "/../", "//", "\\", ":", "\"", "\\\"", "a=b&", "a=b; ", "x, ",
-                                  "gzip, ", "chunked, ", "\x80", "\xc0\xaf", "\xef\xbc\x8f", "--", "--B", "-", "(", "<", "[", "a b", "1", "0", "=&", "; ", ", ", "%%", "a=", "&="};
+                                  "gzip, ", "chunked, ", "\x80", "\xc0\xaf", "\xef\xbc\x8f", "--", "--B", "-", "(", "<", "[", "a b", "1", "0", "=&", "; ", ", ", "%%", "a=", "&=", "/a/b/..", "/a/./b/../c", "/x/%2e%2e", "a/..;"};
 static const int C08_NUNIT = (int) (sizeof C08_UNITS / sizeof *C08_UNITS);
 // line units for the sites that repeat whole lines (the line end is the site's)
 static const char *C08_LINES[] = {"a: b", " a", "\ta", "a", "a:", ":a", ":", "a b", "a : b", "1", "0", "1;a=b", "-", " ", "", "a: b, c", "a:b:c", "Content-Length: 0", "Host: a", "Cookie: a=b",
@@ -1269,8 +1273,12 @@ static void eval_c08(const Plan &p, Verdict &v, Agg *agg) {
         for (auto &x : r.viol) if (x.prop == "C01") { v.violated = true; v.oracle = "C08.via." + x.oracle; v.detail = x.detail; return; }
     }
     v.nontrivial = true;
-    const C08Point &lo = pts.front(), &hi = pts.back();
     std::string trace; for (auto &pt : pts) trace += strfmt(" k=%zu:%.1f", pt.k, pt.ratio);
+    // rungs on which the stream did not really grow any more (a unit that has to fit one line is clipped below the hard field
+    // limit) are no rungs of the ladder: with them at the top "still growing over the last two doublings" could never be seen
+    // for units of four bytes or more (seeded change C08-j was missed for that reason)
+    while (pts.size() > 3 && (double) pts.back().bytes < 1.5 * (double) pts[pts.size() - 2].bytes) pts.pop_back();
+    const C08Point &lo = pts.front(), &hi = pts.back();
     if (agg) { if (p.cfg.get("c08_pattern", 0) >= C08_NPAT) { agg->inc(std::string("c08.generated.site.") + C08_SITE_NAMES[p.cfg.get("c08_site", 0) % C08_SITE_COUNT]); agg->inc("c08.generated.runs"); } else agg->inc("c08.pattern." + pat); }
     if (getenv("VERIF_C08_TRACE")) printf("C08TRACE %s delivery=%ld%s worst_call=%.0f\n", pat.c_str(), del, trace.c_str(), hi.worst_call);
     // (a) work per allowed unit must not grow along the ladder: quadratic behaviour doubles it at every step (x128 over 7 steps)
@@ -1649,7 +1657,7 @@ static void c11_plan(Rng &rng, Plan &p, uint64_t variant) {
     else if (tname == "cl_empty") { add.push_back(H("Content-Length", rng.coin() ? "" : " ")); must = FL_REQUEST_INVALID | FL_INVALID_C_L; }
     else if (tname == "cl_nondigit") { static const char *V[] = {"abc", "x", "ten", "--", "?", "length"}; add.push_back(H("Content-Length", V[rng.below(6)])); must = FL_REQUEST_INVALID | FL_INVALID_C_L; }
     else if (tname == "cl_overflow") { static const char *V[] = {"9223372036854775808", "18446744073709551616", "99999999999999999999999", "9223372036854775807000"}; add.push_back(H("Content-Length", V[rng.below(4)])); must = FL_REQUEST_INVALID | FL_INVALID_C_L; }
-    else if (tname == "te_unsupported") { static const char *V[] = {"gzip", "identity", "deflate", "compress", "chunke", "xchunked", "chunkedx"}; add.push_back(H("Transfer-Encoding", recase(rng, V[rng.below(7)]))); must = FL_REQUEST_INVALID | FL_INVALID_T_E; }
+    else if (tname == "te_unsupported") { static const char *V[] = {"gzip", "identity", "deflate", "compress", "chunke", "xchunked", "chunkedx", "chunked;", "chunked ;", "chunked=", "chunked/", "chunked:1", "chunked\"", "chunked;q=1", "gzip, chunked;", "chunked x", "chunked\x7f"}; add.push_back(H("Transfer-Encoding", recase(rng, V[rng.below(17)]))); must = FL_REQUEST_INVALID | FL_INVALID_T_E; }
     else if (tname == "host_differs") { q.target = "http://" + recase(rng, host) + strfmt("/id%d/c11", k); static const char *O[] = {"evil.example.com", "www.example.org", "example.com", "www.example.com.evil.net", "w.example.com"}; host_value = O[rng.below(5)]; must = FL_HOST_AMBIGUOUS; }
     else if (tname == "port_differs") { int p1 = (int) rng.range(1, 65535), p2 = (int) rng.range(1, 65535); if (p2 == p1) p2 = p1 == 65535 ? 1 : p1 + 1; q.target = "http://" + host + strfmt(":%d/id%d/c11", p1, k); host_value = host + strfmt(":%d", p2); must = FL_HOST_AMBIGUOUS; }
     else if (tname == "host_missing_11") { host_hdr = false; must = FL_HOST_MISSING; }
@@ -1766,6 +1774,8 @@ Script connect_script_ex(Rng &r, int id_base, int kind, int &connect_idx, bool &
         else if (kind == 0 && r.chance(1, 3)) { static const int ST[] = {200, 204, 299}; p.status = ST[r.below(3)]; p.reason = "Connection established"; }   // tunnel carrying plain HTTP
         else { static const int ST[] = {407, 403, 502, 400, 500, 302, 300, 301, 399, 599} /* incl. the neighbours of the 2xx range */; p.status = ST[r.below(10)]; p.reason = "Denied"; p.framing = FR_CL; p.body = p.payload = "denied"; HeaderSpec cl; cl.name = "Content-Length"; cl.value = "6"; p.headers.push_back(cl); }
         { HeaderSpec h; h.name = "X-Sim-Id"; h.value = strfmt("%d", id_base + pre); p.headers.push_back(h); }
+        // an interim answer before the final one: the request side keeps waiting (nothing beyond the CONNECT head is consumed)
+        if (r.chance(1, 6)) p.interim = r.coin() ? Bytes("HTTP/1.1 100 Continue\r\n\r\n") : Bytes("HTTP/1.1 100 Continue\r\nX-Interim: 1\r\n\r\n");
     }
     s.req.push_back(q); s.res.push_back(p);
     tunnel_req.clear(); tunnel_res.clear();
